@@ -6,7 +6,10 @@
 
 package webdav
 
-import "path"
+import (
+	"path"
+	"strings"
+)
 
 // Contracts, spec functions and lemma harnesses for the deductive verifier in /verif (govc).
 // This file is compiled only with -tags verif; it adds no behaviour to the package.
@@ -232,7 +235,7 @@ func specSlashClean(name string) string {
 //
 //@ pure
 func coversPath(anc, p string) bool {
-	return anc == p || anc == "/" || (len(p) > len(anc) && p[:len(anc)] == anc && p[len(anc)] == '/')
+	return anc == p || anc == "/" || strings.HasPrefix(p, anc+"/")
 }
 
 // lemmaF2GuardInsufficient: the guard of handleCopyMove (dst != "" && dst != src on the raw strings)
@@ -311,6 +314,7 @@ func lemmaF2GuardInsufficient() (ok bool) {
 //@   allocates
 //@ func (*Handler).handleCopyMove(h, w, r) (status, err)
 //@   abstract
+//@   usebody slashClean
 //@   noframe
 //@   requires h != nil && r != nil && r.URL != nil && h.FileSystem != nil && (hastype(h.FileSystem, *memFS) ==> h.FileSystem.(*memFS) != nil)
 //@   requires hastype(h.FileSystem, Dir) ==> len(h.FileSystem.(Dir)) > 1 && h.FileSystem.(Dir)[0] == '/' && (forall i int :: 0 <= i && i < len(h.FileSystem.(Dir)) && h.FileSystem.(Dir)[i] == '/' ==> (i+1 >= len(h.FileSystem.(Dir)) ==> len(h.FileSystem.(Dir)) == 1) && (i+1 < len(h.FileSystem.(Dir)) ==> h.FileSystem.(Dir)[i+1] != '/') && (i+1 < len(h.FileSystem.(Dir)) && h.FileSystem.(Dir)[i+1] == '.' ==> i+2 < len(h.FileSystem.(Dir)) && h.FileSystem.(Dir)[i+2] != '/') && (i+2 < len(h.FileSystem.(Dir)) && h.FileSystem.(Dir)[i+1] == '.' && h.FileSystem.(Dir)[i+2] == '.' ==> i+3 < len(h.FileSystem.(Dir)) && h.FileSystem.(Dir)[i+3] != '/'))
